@@ -13,8 +13,8 @@ package main
 //	stop  :=  none | some nibble bytes       (reserved id 15: ignored nibble, ignored rest of the block)
 //	pad   :=  none | some filler
 //
-//	c03.wire  wire bytes <n> q*                   => un hn re reUn <n> id* <n> obytes*
-//	c03.mut   bytes <n> q*                        => un hn re reUn <n> id* <n> obytes*
+//	c03.wire  wire bytes <n> q* prev              => un hn re reUn <n> id* <n> obytes* unDirty
+//	c03.mut   bytes <n> q* prev                   => un hn re reUn <n> id* <n> obytes* unDirty
 //	c03.view  kind blk bytes <n> q* fill          => unm ids <n> get* marshal size <n> to*
 
 import (
@@ -200,8 +200,9 @@ func writeQueries(t *Toks, qs []uint8) {
 
 // observeC03 runs the real decoder and encoder on one byte string and reads the decoded header
 // through its public accessors: un hn re reUn ids gets.
-func observeC03(o *Toks, buf []byte, queries []uint8) (accepted bool) {
+func observeC03(o *Toks, buf []byte, queries []uint8, prev []byte) (accepted bool) {
 	accepted = observeC03codec(o, buf)
+	defer observeDirty(o, buf, prev)
 	if !accepted {
 		o.Nat(0).Nat(0)
 		return false
@@ -218,6 +219,38 @@ func observeC03(o *Toks, buf []byte, queries []uint8) (accepted bool) {
 		o.OBytes(p.GetExtension(q))
 	}
 	return true
+}
+
+// observeDirty decodes buf into a Packet that decoded prev before (a fresh one if prev was not
+// accepted, so that the receiver's state is always one the model describes).
+func observeDirty(o *Toks, buf, prev []byte) {
+	d := &rtp.Packet{}
+	failed := false
+	if try(func() { failed = d.Unmarshal(cloneBytes(prev)) != nil }) || failed {
+		d = &rtp.Packet{}
+	}
+	var err error
+	if try(func() { err = d.Unmarshal(cloneBytes(buf)) }) {
+		o.Panic()
+	} else if writeRes(o, err) {
+		writePacketObs(o, d)
+	}
+}
+
+// genPrev draws what the reused receiver decoded before: a larger packet more often than not
+// (more CSRCs / elements / padding than the next one), or nothing.
+func genPrev(r *Rand) []byte {
+	if r.Chance(1, 4) {
+		return nil
+	}
+	w := genWire(r, 24, true)
+	if r.Bool() {
+		w.CSRC = make([]uint32, r.Pick(3, 15))
+		for i := range w.CSRC {
+			w.CSRC[i] = uint32(r.U64())
+		}
+	}
+	return encodeWire(w)
 }
 
 func observeC03codec(o *Toks, buf []byte) (accepted bool) {
@@ -728,10 +761,12 @@ func init() {
 				tagWire(c, w)
 				img := encodeWire(w)
 				qs := viewQueries(c.R, &w.Ext)
+				prev := genPrev(c.R)
 				writeWire(&c.I, w)
 				c.I.Bytes(img)
 				writeQueries(&c.I, qs)
-				observeC03(&c.O, img, qs)
+				c.I.Bytes(prev)
+				observeC03(&c.O, img, qs, prev)
 			})
 		}
 		// boundary grid: every block layout × CSRC count × payload × padding
@@ -895,9 +930,11 @@ func init() {
 			x.Case(func(c *Case) {
 				buf := mk(c)
 				qs := []uint8{0, 1, 2, 15, uint8(c.R.Range(1, 255)), uint8(c.R.Range(1, 14))}
+				prev := genPrev(c.R)
 				c.I.Bytes(buf)
 				writeQueries(&c.I, qs)
-				if !observeC03(&c.O, buf, qs) {
+				c.I.Bytes(prev)
+				if !observeC03(&c.O, buf, qs, prev) {
 					c.Tag("rejected")
 					c.Trivial()
 				} else {
